@@ -46,6 +46,12 @@ import (
 const OneHourInMs = 60 * 60 * 1000
 const TRACE_PAGE_LIMIT = 50
 
+// Span ids are only unique within a trace, so a span is identified by both ids.
+type spanKey struct {
+	traceID string
+	spanID  string
+}
+
 func ProcessSearchTracesRequest(ctx *fasthttp.RequestCtx, myid int64) {
 	searchRequestBody, readJSON, err := ParseAndValidateRequestBody(ctx)
 	if err != nil {
@@ -524,7 +530,7 @@ func ProcessRedTracesIngest(myid int64) {
 		return
 	}
 
-	spanIDtoService := make(map[string]string)
+	spanIDtoService := make(map[spanKey]string)
 	entrySpans := make([]*structs.Span, 0)
 	serviceToSpanCnt := make(map[string]int)
 	serviceToErrSpanCnt := make(map[string]int)
@@ -534,7 +540,7 @@ func ProcessRedTracesIngest(myid int64) {
 	serviceToMetrics := make(map[string]structs.RedMetrics)
 
 	for _, span := range spans {
-		spanIDtoService[span.SpanID] = span.Service
+		spanIDtoService[spanKey{span.TraceID, span.SpanID}] = span.Service
 	}
 
 	// Get entry spans
@@ -542,7 +548,7 @@ func ProcessRedTracesIngest(myid int64) {
 
 		// A span is an entry point if it has no parent or its parent is a different service
 		if len(span.ParentSpanID) != 0 {
-			parentServiceName, exists := spanIDtoService[span.ParentSpanID]
+			parentServiceName, exists := spanIDtoService[spanKey{span.TraceID, span.ParentSpanID}]
 			if exists && parentServiceName == span.Service {
 				continue
 			}
@@ -725,17 +731,17 @@ func MakeTracesDependancyGraph(startEpoch int64, endEpoch int64, myid int64) map
 		spans = append(spans, rawSpanData.Hits.Spans...)
 	}
 
-	spanIdToServiceName := make(map[string]string)
+	spanIdToServiceName := make(map[spanKey]string)
 	dependencyMatrix := make(map[string]map[string]int)
 
 	for _, span := range spans {
-		spanIdToServiceName[span.SpanID] = span.Service
+		spanIdToServiceName[spanKey{span.TraceID, span.SpanID}] = span.Service
 	}
 	for _, span := range spans {
 		if span.ParentSpanID == "" {
 			continue
 		}
-		parentService, parentExists := spanIdToServiceName[span.ParentSpanID]
+		parentService, parentExists := spanIdToServiceName[spanKey{span.TraceID, span.ParentSpanID}]
 		if !parentExists {
 			continue
 		}
